@@ -29,6 +29,15 @@ def rstrip (s : Str) : Str := (s.reverse.dropWhile isSpace).reverse
 /-- Python `s.strip()` (ASCII). -/
 def strip (s : Str) : Str := rstrip (lstrip s)
 
+/-- `str.isspace()` per character for arbitrary Unicode text: what `str.strip()` removes (ASCII white space, the separators
+    U+001C–U+001F, NEL, NBSP and the Unicode space separators) -/
+def isUSpace (c : Char) : Bool :=
+  let n := c.toNat
+  (0x09 ≤ n && n ≤ 0x0d) || (0x1c ≤ n && n ≤ 0x20) || n == 0x85 || n == 0xa0 || n == 0x1680
+    || (0x2000 ≤ n && n ≤ 0x200a) || n == 0x2028 || n == 0x2029 || n == 0x202f || n == 0x205f || n == 0x3000
+/-- Python `s.strip()` on arbitrary text. -/
+def stripU (s : Str) : Str := ((s.dropWhile isUSpace).reverse.dropWhile isUSpace).reverse
+
 /-- Python `sub in s`. -/
 def hasSub (sub : Str) : Str → Bool
   | [] => sub.isEmpty
